@@ -476,6 +476,9 @@ class JSFunction:
         return f"[Function: {self.name}]" if self.name else "[Function (anonymous)]"
 
 
+_LINE_TERMINATOR_ESCAPES = {"\n": "n", "\r": "r", "\u2028": "u2028", "\u2029": "u2029"}
+
+
 class JSRegExp(JSObject):
     """JavaScript RegExp object."""
 
@@ -483,13 +486,20 @@ class JSRegExp(JSObject):
         super().__init__()
         from .regex import RegExp as InternalRegExp, MatchResult
 
+        if len(set(flags)) != len(flags) or any(f not in "dgimsuvy" for f in flags):
+            from .errors import JSSyntaxError
+
+            raise JSSyntaxError(
+                f"Invalid flags supplied to RegExp constructor '{flags}'"
+            )
         self._internal = InternalRegExp(pattern, flags, poll_callback)
         self._pattern = pattern
         self._flags = flags
 
-        # Set properties
-        self.set("source", pattern)
-        self.set("flags", flags)
+        # Set properties: `source` is the pattern as a literal would spell it,
+        # `flags` lists the flags in the canonical order
+        self.set("source", self._escape_source(pattern))
+        self.set("flags", "".join(f for f in "dgimsuvy" if f in flags))
         self.set("global", "g" in flags)
         self.set("ignoreCase", "i" in flags)
         self.set("multiline", "m" in flags)
@@ -498,6 +508,31 @@ class JSRegExp(JSObject):
         self.set("sticky", "y" in flags)
         self.set("lastIndex", 0)
         self.hide_all()  # none of a RegExp's own properties is enumerable
+
+    @staticmethod
+    def _escape_source(pattern: str) -> str:
+        """EscapeRegExpPattern: the text that, between slashes, reads as this pattern."""
+        if not pattern:
+            return "(?:)"
+        out, escaped, in_class = [], False, False
+        for ch in pattern:
+            if escaped:
+                escaped = False
+                out.append(_LINE_TERMINATOR_ESCAPES.get(ch, ch))
+                continue
+            if ch == "\\":
+                escaped = True
+            elif ch == "[":
+                in_class = True
+            elif ch == "]":
+                in_class = False
+            elif ch == "/" and not in_class:
+                out.append("\\")
+            elif ch in _LINE_TERMINATOR_ESCAPES:
+                out.append("\\" + _LINE_TERMINATOR_ESCAPES[ch])
+                continue
+            out.append(ch)
+        return "".join(out)
 
     @property
     def lastIndex(self) -> int:
